@@ -944,6 +944,85 @@ func (g *Gen) viewProgram(n int, withMeta bool) {
 	g.emit(Line{Op: "view", Pos: []string{"c0", "nodd", "v0"}})
 }
 
+// collsProgram: collections dropped and re-created (same and other names) in the middle of write histories on all of them, calls
+// through the objects of dropped collections, clock going backwards and (on disk) reopening in a "new process".
+func (g *Gen) collsProgram(n int) {
+	g.colls = []string{"c0", "c1", "c2"}
+	g.keys = []string{"k0", "k1", "k2"}
+	g.profile = "nometa"
+	exists := map[string]bool{"c0": true, "c1": true, "c2": true, "c3": false}
+	usable := map[string]bool{"c0": true, "c1": true, "c2": true, "c3": false} // the harness holds an object for it
+	all := []string{"c0", "c1", "c2", "c3"}
+	rbAll := func() {
+		for _, c := range all {
+			if usable[c] {
+				for _, k := range g.keys {
+					g.rb(c, k)
+				}
+			}
+		}
+	}
+	for i := 0; i < n; i++ {
+		g.tick()
+		switch g.r.weighted([]int{70, 9, 11, 10}) {
+		case 0:
+			var cs []string
+			for _, c := range all {
+				if usable[c] {
+					cs = append(cs, c)
+				}
+			}
+			c, k := pick(g.r, cs), pick(g.r, g.keys)
+			if g.oneOp(c, k) {
+				rbAll()
+			}
+			for _, cc := range cs {
+				g.rb(cc, k)
+			}
+			if exists[c] && g.r.chance(15) {
+				g.emit(Line{Op: "lastcas", Pos: []string{c}})
+			}
+		case 1:
+			c := pick(g.r, []string{"c1", "c2", "c3"})
+			if !usable[c] {
+				continue
+			}
+			g.emit(Line{Op: "dropcoll", Pos: []string{c}, Args: [][2]string{{"via", "h0"}}})
+			exists[c] = false
+			g.stats["op:dropcoll"]++
+			rbAll()
+		case 2:
+			c := pick(g.r, []string{"c1", "c2", "c3"})
+			g.emit(Line{Op: "mkcoll", Pos: []string{c}, Args: [][2]string{{"via", "h0"}}})
+			exists[c], usable[c] = true, true
+			g.stats["op:mkcoll"]++
+			rbAll()
+		case 3:
+			if g.w.kind != "disk" {
+				continue
+			}
+			if g.r.chance(60) {
+				// the wall clock of the new process is not ahead of what was handed out
+				g.phys = uint64(1<<20) + uint64(g.r.intn(1<<18))
+				g.emit(Line{Op: "clock", Args: [][2]string{{"t", u(g.phys)}}})
+			}
+			g.emit(Line{Op: "restart", Args: [][2]string{{"hlc", "0"}, {"mode", pick(g.r, []string{"reopen", "open"})}}})
+			g.stats["op:restart"]++
+			exists["c1"], exists["c2"] = true, true
+			usable["c1"], usable["c2"] = true, true
+			usable["c3"] = false // the object belongs to the closed handle; the collection (if it exists) is reopened by mkcoll
+			rbAll()
+		}
+	}
+	rbAll()
+	for _, c := range all {
+		if exists[c] && usable[c] {
+			g.emit(Line{Op: "keys", Pos: []string{c}})
+			g.emit(Line{Op: "lastcas", Pos: []string{c}})
+		}
+	}
+}
+
 // resumeProgram: one checkpointed feed in resume mode, stopped and restarted (live and dump runs) between batches of writes.
 func (g *Gen) resumeProgram(n int) {
 	g.colls = []string{"c0"}
@@ -1138,6 +1217,13 @@ func (g *Gen) program(n int) {
 		g.now = 1700000000
 		g.metaCas = 5000000
 		g.viewProgram(n, g.profile == "viewmeta")
+		return
+	}
+	if g.profile == "colls" {
+		g.phys = 1 << 20
+		g.now = 1700000000
+		g.metaCas = 5000000
+		g.collsProgram(n)
 		return
 	}
 	if g.profile == "query" {
